@@ -159,7 +159,8 @@ def run(R, env):
             # "only through a staked-asset payment": the amount recorded is the ibc-denom coin attached to the message
             # (no default when it is missing: `funds.find(denom)` absent is an error exit, not a zero)
             rv = d.get(("received_native_unstaked",))
-            paid_ok = rv is not None and rv[0] == "agg" and rv[2] == "Some" and shared.is_reward(prog, rv[3][0][2])
+            rvs = [rv] + [s_[3] for s_ in subterms(o["args"][3]) if s_[0] == "upd" and s_[2] == ("received_native_unstaked",)]  # (as written, too: a helper that finds the coin is recognised by shared.is_reward)
+            paid_ok = any(x is not None and x[0] == "agg" and x[2] == "Some" and shared.is_reward(prog, x[3][0][2]) for x in rvs)
             R.ob("C06.R2", "ReceiveUnstakedTokens:received-amount-is-the-payment", paid_ok, "received_native_unstaked := %s; expected Some(amount of the ibc-denom coin attached to the message), a missing coin being an error" % fmt(rv or ("none",))[:160], loc=o["loc"], fn=hk)
     R.floor("C06.R2", "BATCHES writes in ReceiveUnstakedTokens", nrecv, 1)
     found = []
